@@ -1,6 +1,7 @@
 (* C18 -- CL03 keys and parameters: construction invariants of the generators (for every sequence of draws) and codecs.
    Primality of p, q, (p-1)/2, (q-1)/2 is decided by GMP (probable primes): re-tested by the sweep, not proved. *)
 From ZK Require Import Cl ClArith ClSig ClMore.
+From ZK Require Import ClCodec.
 
 Theorem C18_keygen_shape :
   forall CS ds pk sk ds', keygen CS ds = Ok ((pk, sk), ds') ->
@@ -59,3 +60,11 @@ Proof. exact pk_codec_roundtrip. Qed.
 Check (C18_pk_codec_roundtrip :
   forall CS pk b, pk_to_bytes CS pk = Ok b -> pk_from_bytes CS b = Ok pk).
 Print Assumptions C18_pk_codec_roundtrip.
+
+(* secret-key byte codec round trip *)
+Theorem C18_sk_codec_roundtrip :
+  forall CS sk b, sk_to_bytes CS sk = Ok b -> sk_from_bytes CS b = Ok sk.
+Proof. exact sk_codec_roundtrip. Qed.
+Check (C18_sk_codec_roundtrip :
+  forall CS sk b, sk_to_bytes CS sk = Ok b -> sk_from_bytes CS b = Ok sk).
+Print Assumptions C18_sk_codec_roundtrip.
